@@ -474,3 +474,136 @@ func runC07_11(c *core.Ctx) {
 		c.Violate("gnet", "exported teardown entry", token.NoPos, "no exported method reaches closeEventLoops (Client.Stop is expected to)")
 	}
 }
+
+func init() {
+	register(&core.Rule{ID: "C07.12", Prop: "C07", MinSites: 1,
+		Desc: "no close behind the owner's back: once a descriptor was given to a conn constructor and that conn was handed to a loop (Trigger/register), the creating function closes the descriptor only where the hand-over's error is established non-nil; on the success edge the loop owns it and will close it itself",
+		Run: runC07_12})
+}
+
+func runC07_12(c *core.Ctx) {
+	v := vocabOf(c)
+	if v == nil {
+		return
+	}
+	sites := 0
+	for _, f := range v.funcs {
+		if f.Decl.Body == nil {
+			continue
+		}
+		isCtor := func(call *ast.CallExpr) bool {
+			cf := flow.CalleeFunc(f.Info, call)
+			return cf != nil && v.byObj[cf] != nil && (cf.Name() == "newStreamConn" || cf.Name() == "newUDPConn")
+		}
+		// fd variable -> conn variable built from it
+		type built struct {
+			fd, conn types.Object
+		}
+		var bs []built
+		ast.Inspect(f.Decl.Body, func(n ast.Node) bool {
+			if _, ok := n.(*ast.FuncLit); ok {
+				return false
+			}
+			as, ok := n.(*ast.AssignStmt)
+			if !ok || len(as.Lhs) != 1 || len(as.Rhs) != 1 {
+				return true
+			}
+			call, ok := ast.Unparen(as.Rhs[0]).(*ast.CallExpr)
+			if !ok || !isCtor(call) {
+				return true
+			}
+			co := flow.ObjOf(f.Info, as.Lhs[0])
+			for _, a := range call.Args {
+				if fo, ok := flow.ObjOf(f.Info, a).(*types.Var); ok && co != nil {
+					if b, ok := fo.Type().Underlying().(*types.Basic); ok && b.Kind() == types.Int {
+						bs = append(bs, built{fo, co})
+					}
+				}
+			}
+			return true
+		})
+		for _, bt := range bs {
+			bt := bt
+			var closes []*ast.CallExpr
+			for _, call := range callsIn(f.Decl.Body, false) {
+				if flow.IsPkgFunc(f.Info, call, unixPkg, "Close") && len(call.Args) == 1 && flow.ObjOf(f.Info, call.Args[0]) == bt.fd {
+					closes = append(closes, call)
+				}
+			}
+			if len(closes) == 0 {
+				continue
+			}
+			const (
+				fBuilt = 1 << iota
+				fHanded
+				fFailed
+			)
+			var errObj types.Object
+			p := &flow.Problem{Must: true}
+			p.Node = func(b *flow.Block, i int, n ast.Node, in uint64) uint64 {
+				flow.Events(n, func(x ast.Node) {
+					switch y := x.(type) {
+					case *ast.AssignStmt:
+						if len(y.Rhs) == 1 {
+							if call, ok := ast.Unparen(y.Rhs[0]).(*ast.CallExpr); ok {
+								if isCtor(call) && len(y.Lhs) == 1 && flow.ObjOf(f.Info, y.Lhs[0]) == bt.conn {
+									in |= fBuilt
+									in &^= fHanded | fFailed
+									return
+								}
+								for _, a := range call.Args {
+									if flow.ObjOf(f.Info, a) == bt.conn && in&fBuilt != 0 && len(y.Lhs) >= 1 {
+										if eo := flow.ObjOf(f.Info, y.Lhs[len(y.Lhs)-1]); eo != nil && isErrorType(eo.Type()) {
+											errObj = eo
+											in |= fHanded
+											in &^= fFailed
+											return
+										}
+									}
+								}
+							}
+						}
+						for _, l := range y.Lhs {
+							if errObj != nil && flow.ObjOf(f.Info, l) == errObj {
+								in &^= fFailed
+							}
+						}
+					}
+				})
+				return in
+			}
+			p.Edge = func(e *flow.Edge, in uint64) uint64 {
+				if e.Cond == nil || e.Tag != nil || errObj == nil {
+					return in
+				}
+				if x, y, op, ok := flow.Cmp(e.Cond); ok && flow.IsNil(f.Info, y) && flow.ObjOf(f.Info, x) == errObj && in&fHanded != 0 {
+					if (op == token.NEQ) == e.Sense {
+						in |= fFailed
+					}
+				}
+				return in
+			}
+			// errObj is discovered while solving; run twice so that edges see it
+			g := f.Graph()
+			g.Solve(p)
+			sol := g.Solve(p)
+			k := 0
+			sol.Walk(func(b *flow.Block, i int, n ast.Node, before uint64) {
+				for _, call := range flow.Calls(n) {
+					for _, cl := range closes {
+						if call != cl || before&fBuilt == 0 || before&fHanded == 0 {
+							continue
+						}
+						k++
+						sites++
+						c.Check(before&fFailed != 0, f.Name, "unix.Close("+bt.fd.Name()+") after hand-over #"+itoa(k), call.Pos(), "only on the failed hand-over edge",
+							"the descriptor "+bt.fd.Name()+" belongs to "+bt.conn.Name()+", which was handed to an event loop; it is closed here although the hand-over is not known to have failed: the loop will register, serve and close the same number again (a number that may meanwhile name another connection)", sol.Witness(b, fFailed)...)
+					}
+				}
+			})
+		}
+	}
+	if sites == 0 {
+		c.Undecided("gnet", "close after hand-over", 0, "no creator-side close after a hand-over found (accept0's failure path is the confirmed instance)")
+	}
+}
